@@ -184,6 +184,7 @@ def check_c15(v: Verdict, t1_summary, n_unions):
                      (Union[Literal[True], int, str, None], [int, str, NoneType]), (Union[Literal[1], bool, str], [bool, str]),
                      (Union[Literal[True], float, str], [float, str, int]), (Union[Literal["a"], int], [int, bytes])]:
         fixed.append((lit_u, s))
+    attempts = 0
     while hist["unions"] < n_unions + len(fixed):
         from_fixed = hist["unions"] < len(fixed)
         u = fixed[hist["unions"]][0] if from_fixed else gen_union(rng)
@@ -197,10 +198,27 @@ def check_c15(v: Verdict, t1_summary, n_unions):
         if rng.random() < 0.2 and IntSub not in s_members:
             s_members.append(IntSub)
         conv = make_converter(rng, s_members)
+        attempts += 1
         try:
             hook = conv.get_structure_hook(u)
         except Exception as e:
             if not doc_applies(list(u.__args__), set(s_members)):
+                # a union the strategy leaves to the converter, and the converter has no hook for it: fine -- unless the SAME members in
+                # another order do get a hook (the outcome must not depend on the order of the members)
+                args0 = list(u.__args__)
+                for i in range(1, len(args0)):
+                    rot = args0[i:] + args0[:i]
+                    try:
+                        make_converter(random.Random(1), s_members).get_structure_hook(Union[tuple(rot)])
+                    except Exception:      # noqa
+                        continue
+                    v.violation("whether a union can be structured at all depends on the order of its members",
+                                {"lane": "PASS/C15", "union_members_in_order": [repr(a) for a in args0], "configured": [c.__name__ for c in s_members],
+                                 "this_order": "hook creation raised " + type(e).__name__, "other_order": [repr(a) for a in rot], "other_order_outcome": "hook created"})
+                    break
+                if from_fixed or attempts > 40 * (n_unions + len(fixed)):
+                    hist["unions"] += 1          # (never retry a fixed union; never spin on the random ones)
+                    hist["skipped_no_hook"] = hist.get("skipped_no_hook", 0) + 1
                 continue
             hook = e             # no hook at all for a union the strategy is documented to handle
         applies = getattr(hook, "__name__", "") == "structure_native_union"
@@ -299,7 +317,9 @@ def check_c02_passthrough(v: Verdict, n_unions):
     their base) or equal to one of U's literals."""
     rng = random.Random(v.seed * 7919 + 2015)
     hist = {"unions": 0, "probes": 0, "passed_through": 0}
-    while hist["unions"] < n_unions:
+    attempts = 0
+    while hist["unions"] < n_unions and attempts < 60 * n_unions:
+        attempts += 1
         u = gen_union(rng)
         if u is None:
             continue
